@@ -28,6 +28,7 @@ func checkC05(c *Ctx) string {
 	checkC05Errors(c, a)
 	checkC05Bounded(c, a)
 	checkC05Contain(c, a)
+	checkScanStartsAtEnd(c, "C05.7 K11 the search for the latest state starts at the end of the data")
 	return "Static shape of crash recovery: OpenDbStor returns (nil, err) on the corrupt arm and on every path not behind readTail()==shutdown, registers its recover before ReadState; Corrupt() writes the corrupt marker " +
 		"(Alloc in writable modes, file append otherwise), close never appends the shutdown marker to a corrupted database, CheckDatabase/Check call Corrupt before returning a finding; " +
 		"every return of readState that reports a state is dominated by the magic1 test, the checksum, the magic2 test and offset<off tests for both returned offsets; every caller of ReadState has a deferred recover; " +
